@@ -88,7 +88,13 @@ def run(c):
         "hand-made directories are run up to three times in a row (clean stop in between), a third of them with a TRANSIENT fault (EMFILE, EIO, EACCES, ENFILE, EINTR, ENOMEM; "
         "injected by the os shim, once) in one read-only call of the start-up scan (open/read of .meta, stat of header/body) or of openMessage (open/read of .meta, stat of body, open of header), "
         "mostly followed by a fault-free restart; half of all scenarios / hand-made directories / backlogs use a spool directory with an unusual but legal name "
-        "(`L<k>`: glob metacharacters [ ] * ? \\, an unbalanced bracket, spaces, percent signs, leading dash, quotes/braces/dollar, non-ASCII, 240 characters, a name ending in .meta)",
+        "(`L<k>`: glob metacharacters [ ] * ? \\, an unbalanced bracket, spaces, percent signs, leading dash, quotes/braces/dollar, non-ASCII, 240 characters, a name ending in .meta); "
+        "a size dimension (`G<a>,<e>`, `A<n>,…`, `M#<n>;<c>`): a handful of cases per run (more in the thorough tier) with 400-5000 (thorough: up to 20000) recipients, addresses made "
+        "up to 180 bytes longer, error texts of the target / of the stored records up to 1500 (thorough 20000) bytes longer, i.e. meta-data files of 100 KiB to several MiB: hand-made "
+        "directories holding such a record (acceptance-time and after-a-deferral image), and real runs in which the first attempt defers (nearly) every recipient and the process is "
+        "stopped between the attempts (always) and at a sample of the other crash points, then restarted; "
+        "Close racing with an open transaction (a sixth of the single-message scenarios): Start, AddRcpt, [Close,] Body, [Close,] Commit | Abort on the stopped queue (`Q`, `K`), "
+        "process exit, restart on the same spool; a Commit that returns an error is recorded as NACK (token `N`, no step of the model)",
         explanation="inductive invariant over a small-step model in which every single file-system call is a step and a crash (any loss of un-synced data, any torn write) is possible in "
         "every state, recovery included to any depth; model tied to queue.go by the regenerated call skeleton (T1) and by exhaustive crash-point enumeration on the real code (T2); "
         "independent Go monitor on the real events (accepted-lost / stored-lost: in EVERY recovery run each pending recipient of a complete stored message is attempted and then delivered, "
@@ -99,6 +105,10 @@ def run(c):
         "read-only calls are the choices scanFault / openFault (C02_scan_fault_entry_kept, C02_scan_fault_invisible, C02_skipped_entry_still_pending); "
         "a spool larger than max_parallelism: SysReachPar (dispatch needs a free delivery slot) is a sub-system of the free product of the ids, never exceeds the bound, and a slot "
         "holder always has an enabled own step and frees the slot after at most five of them (C02_backlog_*, C02_slot_*); header-only messages: the zero-length write is a stutter step "
-        "and an empty body file is recovered like any other (C02_empty_*)",
+        "and an empty body file is recovered like any other (C02_empty_*); the spool model is size-agnostic: load after store is the identity for every meta-data record "
+        "(C02_meta_roundtrip_any_size; tied T2 by the big cases); acceptance = Commit returned nil, also on a stopped queue (choice commitStopped; C02_commit_acknowledges, "
+        "C02_commit_on_stopped_queue_survives), and the spool holds a loadable entry only for acknowledged transactions or ones the sender never got a reply for "
+        "(C02_loadable_only_if_acknowledged_or_unanswered); monitor: a transaction whose Commit returned an error or that was aborted is never attempted, now or after a restart "
+        "(unacknowledged-delivered, aborted-delivered), an acknowledged one is (accepted-lost)",
         search=search,
     )
